@@ -510,7 +510,7 @@ pub fn par_enter(t: u8, call: Call) {
             s.poison("step_cap");
             return;
         }
-        s.k.now += s.cost_ns;
+        s.k.now = s.k.now.saturating_add(s.cost_ns);
         // spin detection
         let in_lib = s.k.in_lib[t as usize];
         let gen = s.k.gen;
@@ -535,7 +535,7 @@ pub fn par_enter(t: u8, call: Call) {
             if r >= 1000 - s.k.faults.stall_pm as usize {
                 let table = [1_000_000u64, 10_000_000, 100_000_000, 1_000_000_000, 10_000_000_000];
                 let d = table[s.ch.choose(table.len())];
-                s.k.now += d;
+                s.k.now = s.k.now.saturating_add(d);
                 s.stalled_ns += d;
                 s.k.fcount.hit("stall");
                 s.k.ev(Ent::Par(t), Call::Stall, [d as i64, 0, 0], 0);
